@@ -13,16 +13,38 @@
 (***************************************************************************)
 EXTENDS Integers, Sequences, FiniteSets, LRU
 
-CONSTANTS Keys,        \* public keys that expand successfully (integers)
-          BadKeys,     \* byte strings that do not decode (NewExpandedPublicKey fails)
-          Capacity, Clients, MaxOps,
-          Atomic       \* TRUE: Put is one critical section (the code); FALSE: check and insert are separate
+CONSTANTS
+  \* @type: Set(Int);
+  Keys,        \* public keys that expand successfully (integers)
+  \* @type: Set(Int);
+  BadKeys,     \* byte strings that do not decode (NewExpandedPublicKey fails)
+  \* @type: Int;
+  Capacity,
+  \* @type: Set(Int);
+  Clients,
+  \* @type: Int;
+  MaxOps,
+  \* @type: Bool;
+  Atomic       \* TRUE: Put is one critical section (the code); FALSE: check and insert are separate
 
 NoKey == -1
-VARIABLES order,      \* recency list of the cache (LRU.tla), as the code's list: may hold duplicates if broken
-          index,      \* the Go map: set of keys present
-          val,        \* [Keys -> key the stored value was expanded from, or NoKey]
-          pc, key, exp, ops, ret
+VARIABLES
+  \* @type: Seq(Int);
+  order,      \* recency list of the cache (LRU.tla), as the code's list: may hold duplicates if broken
+  \* @type: Set(Int);
+  index,      \* the Go map: set of keys present
+  \* @type: Int -> Int;
+  val,        \* [Keys -> key the stored value was expanded from, or NoKey]
+  \* @type: Int -> Str;
+  pc,
+  \* @type: Int -> Int;
+  key,
+  \* @type: Int -> Int;
+  exp,
+  \* @type: Int -> Int;
+  ops,
+  \* @type: Int -> Int;
+  ret
 
 vars == <<order, index, val, pc, key, exp, ops, ret>>
 AllKeys == Keys \cup BadKeys
@@ -47,7 +69,7 @@ Get(c) == /\ pc[c] = "get"
           /\ UNCHANGED <<index, val, key, ops, ret>>
 
 \* NewExpandedPublicKey, outside the lock
-Expand(c) == /\ pc[c] = "expand"
+ExpandKey(c) == /\ pc[c] = "expand"
              /\ exp' = [exp EXCEPT ![c] = key[c]]
              /\ pc' = [pc EXCEPT ![c] = IF Atomic THEN "put" ELSE "putcheck"]
              /\ UNCHANGED <<order, index, val, key, ops, ret>>
@@ -90,13 +112,13 @@ Finish(c) == /\ pc[c] \in {"done", "fail"}
              /\ UNCHANGED <<order, index, val, key, exp, ops>>
 
 Next == \E c \in Clients : \/ \E k \in AllKeys : Begin(c, k)
-                           \/ Get(c) \/ Expand(c) \/ Put(c) \/ PutCheck(c) \/ PutInsert(c) \/ Finish(c)
+                           \/ Get(c) \/ ExpandKey(c) \/ Put(c) \/ PutCheck(c) \/ PutInsert(c) \/ Finish(c)
 Spec == Init /\ [][Next]_vars
 
 \* ---- the property C18 (cache half)
 BoundedInv == Len(order) <= Capacity
 NoDupInv == NoDup(order)
-IndexConsistent == index = {order[i] : i \in 1..Len(order)}
+IndexConsistent == index = {order[i] : i \in DOMAIN order}
 RightKey == \A k \in Keys : k \in index => val[k] = k
 UsesRightKey == \A c \in Clients : pc[c] = "done" => exp[c] = key[c]
 \* refinement of the sequential LRU: every step changes the recency list as one LRU operation does
